@@ -59,7 +59,16 @@ LinesAcc(b, i, s, acc) ==
     ELSE IF b[i] = LF
          THEN LinesAcc(b, i + 1, i + 1, Append(acc, SubSeq(b, s, i)))
          ELSE LinesAcc(b, i + 1, s, acc)
-Lines(b) == LinesAcc(b, 1, 1, << >>)
+LinesRec(b) == LinesAcc(b, 1, 1, << >>)
+\* the same without one recursion level per byte (streams of > 8 KiB): positions of the LFs first.
+\* FastxIOMC checks Lines = LinesRec on every input (LinesClosedForm).
+LFPos(b) == SelectSeq([i \in 1..Len(b) |-> i], LAMBDA i : b[i] = LF)
+Lines(b) ==
+    LET p == LFPos(b)
+        n == Len(p)
+        last == IF n = 0 THEN 0 ELSE p[n]
+        full == [k \in 1..n |-> SubSeq(b, (IF k = 1 THEN 1 ELSE p[k - 1] + 1), p[k])]
+    IN  IF last < Len(b) THEN Append(full, SubSeq(b, last + 1, Len(b))) ELSE full
 
 \* line number i (1-based) or the empty line that read_line reports at EOF
 Line(ls, i) == IF i <= Len(ls) THEN ls[i] ELSE << >>
